@@ -133,6 +133,8 @@ unique_inv = sym('unique_inv', (T,), T, None)
 unique_counts = sym('unique_counts', (T,), T, None)
 argsortT = sym('argsortT', (T,), T, lambda a: _np.argsort(a))
 whereT = sym('whereT', (T,), T, lambda a: _np.where(a)[0])
+itake = sym('itake', (T, T), T, lambda b, I_: b[I_.astype(int)])         # b[I] : 1-D b indexed by an integer array I of rank 2
+takev = sym('takev', (T, T), T, lambda b, I_: b[I_.astype(int)])         # b[I] : 1-D b indexed by a 1-D integer array I
 fnorm = sym('fnorm', (T,), R, lambda a: float(_np.linalg.norm(a)))
 cov = sym('cov', (T,), T, lambda X: _np.atleast_2d(_np.cov(X, rowvar=False)))
 covb = sym('covb', (T,), T, lambda X: _np.atleast_2d(_np.cov(X, rowvar=False, bias=True)))
@@ -365,6 +367,20 @@ ax('eigh_reconstruct', 'lib', [a], z3.Implies(a == tr(a), mm(colscale(eigvecs(a)
 ax('chol_factor', 'lib', [a], z3.Implies(is_pd(a), mm(chol(a), tr(chol(a))) == a), [z3.MultiPattern(chol(a))], ['chol'], gen=dict(a='spd(d)'))
 ax('atleast2d_cov', 'def', [a], atleast2d(cov(a)) == cov(a), [z3.MultiPattern(atleast2d(cov(a)))], ['atleast2d', 'cov'], gen=dict(a='mat(n,d)'))
 ax('atleast2d_covb', 'def', [a], atleast2d(covb(a)) == covb(a), [z3.MultiPattern(atleast2d(covb(a)))], ['atleast2d', 'covb'], gen=dict(a='mat(n,d)'))
+# ---- index arrays (C07): np.where, fancy indexing, transposition at a generic position
+_k = z3.Int('k')
+ax('where_elems', 'lib', [a, j], z3.Implies(z3.And(j >= 0, j < lenT(whereT(a))),
+                                            z3.And(at1(whereT(a), j) >= 0, at1(whereT(a), j) < z3.ToReal(lenT(a)), z3.IsInt(at1(whereT(a), j)),
+                                                   at1(a, z3.ToInt(at1(whereT(a), j))) != 0)),
+   [z3.MultiPattern(at1(whereT(a), j))], ['whereT', 'at1'], gen=dict(a='bvec(n)', j='idx(n)'))
+ax('where_increasing', 'lib', [a, j, _k], z3.Implies(z3.And(j >= 0, j < _k, _k < lenT(whereT(a))), at1(whereT(a), j) < at1(whereT(a), _k)),
+   [z3.MultiPattern(at1(whereT(a), j), at1(whereT(a), _k))], ['whereT', 'at1'], gen=dict(a='bvec(n)', j='idx(n)', k='idx(n)'))
+ax('where_len', 'lib', [a], z3.And(lenT(whereT(a)) >= 0, lenT(whereT(a)) <= lenT(a)), [z3.MultiPattern(whereT(a))], ['whereT'], gen=dict(a='bvec(n)'))
+ax('at1_takev', 'lib', [a, b, j], at1(takev(a, b), j) == at1(a, z3.ToInt(at1(b, j))), [z3.MultiPattern(at1(takev(a, b), j))], ['takev', 'at1'],
+   gen=dict(a='vec(n)', b='ivec(n)', j='idx(n)'))
+ax('len_takev', 'lib', [a, b], lenT(takev(a, b)) == lenT(b), [z3.MultiPattern(takev(a, b))], ['takev'], gen=dict(a='vec(n)', b='ivec(n)'))
+ax('at2_itake', 'lib', [a, b, i, j], at2(itake(a, b), i, j) == at1(a, z3.ToInt(at2(b, i, j))), [z3.MultiPattern(at2(itake(a, b), i, j))], ['itake', 'at2'])
+ax('at2_tr', 'lib', [a, i, j], at2(tr(a), i, j) == at2(a, j, i), [z3.MultiPattern(at2(tr(a), i, j))], ['tr', 'at2'], gen=dict(a='mat(n,d)', i='idx(d)', j='idx(n)'))
 ax('array_equal_eq', 'def', [a, b], z3.Implies(array_equal(a, b), a == b), [z3.MultiPattern(array_equal(a, b))], ['array_equal'])
 # ---- math: positive definite matrices (Lean: lean/itml_rank_one.lean)
 ax('pd_quad_pos', 'math', [a, v], z3.Implies(z3.And(pd(a), nonzero(v)), dot(vm(v, a), v) > 0), [z3.MultiPattern(dot(vm(v, a), v))], ['dot', 'vm'],
